@@ -81,7 +81,9 @@ CHECKS = {
                   "UTF-8 encode/decode round trip for all scalar values, power, times, position, direction, mode, temperatures, fan, "
                   "swing, remote id) the model of _parse_device_from_datagram yields exactly the Spec's expected device (OFF => zeros); "
                   "amps = round(w/220,1) simulated exactly and proved within 0.05 A for all 65,536 power values (kernel evaluation). "
-                  "The model is compared with the real parser on reference-encoded broadcasts and the shipped captures, also through a running bridge.",
+                  "The model is compared with the real parser on reference-encoded broadcasts and the shipped captures, also through a running bridge "
+                  "(one broadcast; the same one 3 and 130 times; ONE device heard 2..5 times by one bridge with other fields and its header clock "
+                  "running on, standing still or jumping back).",
              note="Trusted: Lean kernel (propext, Classical.choice, Quot.sound), generated DeviceType table, CPython decode/int/inet_ntoa/"
                   "round as modelled (validated by correspondence; watts_to_amps exhaustively in the thorough tier).",
              tech="Lean 4 proof (field windows over arbitrary backgrounds, UTF-8 round trip, exact float simulation) + correspondence",
@@ -190,7 +192,11 @@ CHECKS = {
                   "sockets_exactly_all (the same for ALL sequences on a runtime that closes the transport of an unreferenced StreamWriter, "
                   "which is what this sandbox's CPython does and the harness observes), disconnect_closes, context_closes (normal and "
                   "exceptional exit), disconnect_first/twice harmless, refused_connect leaves the client as it was, reconnect works, "
-                  "foreign_is_invisible (what another client object does - to the same device or not - changes nothing about this one). "
+                  "foreign_is_invisible (what another client object does - to the same device or not - changes nothing about this one); "
+                  "client_code_refines / client_code_inv: a second model at the granularity of the code (the attributes `_writer`, `_reader`, "
+                  "`_connected`, `hasattr(self, '_writer')`, the statements of connect / disconnect / __aenter__ / __aexit__ in order) refines "
+                  "the abstract machine for every action sequence - it is this code-level model the correspondence runs -, "
+                  "context_exit_ignores_exception (the exit closes whatever class of exception the body raised). "
                   "That closing the writer makes the device see end-of-stream is observed by the correspondence against a scripted device on "
                   "REAL loopback TCP (device-side open-connection count after every action), both API types, with and without the "
                   "restriction on connect.",
